@@ -756,12 +756,12 @@ def _succ(ops, r_i, i):
 
 
 def degenerate_branch_in_loop(case) -> bool:
-    """Known finding F-C02-9: a conditional branch whose target is the op it falls through to anyway, lying on a
-    cycle (the loop builder mishandles the two parallel edges)."""
+    """Known finding F-C02-9: a conditional branch (Branch* or Case* op) whose target is the op it falls through to
+    anyway, lying on a cycle (the loop builder mishandles the two parallel edges)."""
     for r_i, r in enumerate(case["routines"]):
         ops = r["ops"]
         for i, op in enumerate(ops):
-            if op[0] in T.OPS_BRANCH and op[2] == [r_i, i + 1]:
+            if (op[0] in T.OPS_BRANCH or op[0] in T.OPS_CASE) and op[2] == [r_i, i + 1]:
                 seen, stack = set(), [i + 1]
                 while stack:
                     k = stack.pop()
